@@ -1694,7 +1694,8 @@ int EGLPNUM_TYPENAME_ILLlib_delcols (
 
 	for (i = 0; i < num; i++)
 	{
-		if (dellist[i] < 0 || dellist[i] >= ncols) {
+		/* dellist holds structural column indices */
+		if (dellist[i] < 0 || dellist[i] >= qslp->nstruct) {
 			rval = 1;
 			ILL_CLEANUP;
 		}
